@@ -280,8 +280,9 @@ impl<W: Write> LogBuilder<W> {
             return Err(empty_batch());
         }
         assert_ne!(write_batch.setsum, Setsum::default());
+        self._append(&write_batch.buffer)?;
         self.setsum += write_batch.setsum;
-        self._append(&write_batch.buffer)
+        Ok(())
     }
 
     fn _append(&mut self, buffer: &[u8]) -> Result<(), SError> {
